@@ -304,3 +304,104 @@ func TestC04SweepThenLoad(t *testing.T) {
 			return c
 		}, checkC04E2E)
 }
+
+// ---------------------------------------------------------------------------
+// C04: a deletion that arrives from elsewhere deletes, whatever else the entry
+// carries: a marker written by another tool or version (or a native-schema
+// application that flags an entry as deleted and leaves the payload in place)
+// may still hold a value.
+// ---------------------------------------------------------------------------
+
+type C04Foreign struct {
+	Native  bool        `json:"native"`
+	Present string      `json:"present"` // absent | older | newer : what the receiver holds for the key
+	Val     model.Bytes `json:"val"`     // payload the marker carries
+	FV      int         `json:"format_version"`
+	Others  int         `json:"others"` // further (ordinary) entries in the snapshot
+}
+
+func checkC04Foreign(c C04Foreign, o *vcore.Obs) error {
+	f := New(Options{Native: c.Native, N: 1})
+	defer f.Close()
+	key := []byte("k")
+	if c.Present != "absent" {
+		ts := uint64(1000)
+		if c.Present == "newer" {
+			ts = 3000
+		}
+		if err := f.AppCommit(0, []Change{{DBI: "d0", Key: key, Val: []byte("local"), TS: ts}}); err != nil {
+			return err
+		}
+	}
+	if err := f.AppCommit(0, []Change{{DBI: "d0", Key: []byte("other"), Val: []byte("x"), TS: 1000}}); err != nil {
+		return err
+	}
+	if _, err := f.Upload(0); err != nil { // (captures, in shadow mode)
+		return err
+	}
+	in := f.Insts[0]
+	_, appBefore, err := f.Content(0)
+	if err != nil {
+		return err
+	}
+	// marker time: in native mode between the two local stamps; in shadow mode the local version was stamped by
+	// the shared logical clock (about 1000), "newer" there means the marker is older than the capture
+	mts := uint64(2000)
+	if !c.Native {
+		mts = f.Clock + 1000
+		if c.Present == "newer" {
+			mts = 1
+		}
+	}
+	snap := model.Snap{FormatVersion: uint32(c.FV), CompatVersion: 1, Meta: model.Meta{InstanceID: "peer", DatabaseName: DBName},
+		DBIs: []model.DBI{{Name: "d0", Entries: []model.KV{{Key: key, TS: mts, Flags: 1, Val: model.ValOf(c.Val)}}}}}
+	for i := 0; i < c.Others; i++ {
+		snap.DBIs[0].Entries = append(snap.DBIs[0].Entries, model.KV{Key: []byte(fmt.Sprintf("p%d", i)), TS: mts, Val: model.ValOf([]byte("pv"))})
+	}
+	if _, _, err := in.S.LoadOnce(f.Ctx, in.Env.Env, "peer", MkUpdate(snap, time.Now()), in.LastSynced); err != nil {
+		return fmt.Errorf("LoadOnce: %v", err)
+	}
+	ver, app, err := f.Content(0)
+	if err != nil {
+		return err
+	}
+	wins := c.Present != "newer"
+	if c.Native {
+		v, ok := ver["d0"][string(key)]
+		switch {
+		case wins && c.Present == "absent" && !ok:
+			// (a marker for an unknown key may or may not be kept; nothing is visible either way)
+		case wins && (!ok || !v.Del):
+			return fmt.Errorf("native receiver: the newer deletion (carrying a %d-byte payload) did not delete: stored %v (present=%v)", len(c.Val), VerSet{v}, ok)
+		case wins && len(v.Val) != 0:
+			return fmt.Errorf("native receiver: the stored deletion marker carries a value of %d bytes (a deleted entry has no value)", len(v.Val))
+		case !wins && (!ok || v.Del || string(v.Val) != "local"):
+			return fmt.Errorf("native receiver: an older deletion replaced the newer local version: stored %v", VerSet{v})
+		}
+	} else {
+		av, present := app["d0"][string(key)]
+		if wins && present {
+			return fmt.Errorf("shadow receiver: the application still sees %q = %q after a newer deletion (carrying a %d-byte payload) was merged (before: %q)", key, av, len(c.Val), appBefore["d0"][string(key)])
+		}
+		if !wins && (!present || string(av) != "local") {
+			return fmt.Errorf("shadow receiver: an older deletion removed the newer local version (present=%v %q)", present, av)
+		}
+	}
+	if v, ok := app["d0"]["other"]; !c.Native && (!ok || string(v) != "x") {
+		return fmt.Errorf("unrelated key changed: present=%v %q", ok, v)
+	}
+	o.NonTrivial(len(c.Val) > 0)
+	o.ClassIf(len(c.Val) > 0, "marker-carrying-a-payload")
+	o.Class("receiver-has-" + c.Present)
+	return nil
+}
+
+func TestC04ForeignMarker(t *testing.T) {
+	vcore.Run(t, vcore.Config{Property: "C04",
+		Rule: "rapid: a native / shadow receiver that holds no / an older / a newer version of a key merges a hand-made snapshot (format version 2 or 3) in which that key is a deletion marker that still carries a payload of 0-40 bytes, next to 0-3 ordinary entries: a newer deletion deletes (application no longer sees the key; a stored marker has no value), an older one changes nothing; non-trivial = the marker carries a payload"},
+		func(t *rapid.T) C04Foreign {
+			return C04Foreign{Native: rapid.Bool().Draw(t, "native"), Present: rapid.SampledFrom([]string{"absent", "older", "older", "newer"}).Draw(t, "present"),
+				Val: rapid.SampledFrom([]model.Bytes{{}, []byte("v"), []byte("old payload left in place"), make([]byte, 40)}).Draw(t, "val"),
+				FV:  rapid.SampledFrom([]int{2, 3, 3}).Draw(t, "fv"), Others: rapid.IntRange(0, 3).Draw(t, "others")}
+		}, checkC04Foreign)
+}
